@@ -234,6 +234,8 @@ where
     }
 }
 
+const ALIAS_EXPANSION_LIMIT: usize = 256;
+
 /// Removes type aliases from `typ` until it is an actual type
 pub fn remove_aliases<T>(
     env: &(dyn TypeEnv<Type = T> + '_),
@@ -246,8 +248,13 @@ where
     T::Generics: Clone + FromIterator<Generic<Symbol>>,
     T::Fields: Clone,
 {
-    while let Ok(Some(new)) = remove_alias(env, interner, &typ) {
-        typ = new;
+    // Aliases such as `type A = A` or `type A a = A (A a)` never expand to an actual type so
+    // the number of expansions is limited
+    for _ in 0..ALIAS_EXPANSION_LIMIT {
+        match remove_alias(env, interner, &typ) {
+            Ok(Some(new)) => typ = new,
+            _ => break,
+        }
     }
     typ
 }
